@@ -16,13 +16,14 @@ Proof. reflexivity. Qed.
 Lemma compile_path_constructors : (parse_lexer_ctor, parse_parser_ctor) = ("NewThreadSafeSyslLexer", "NewThreadSafeSyslParser").
 Proof. reflexivity. Qed.
 
-(* every other place that builds a lexer / parser (expression debugger, language server) does the same; a new site that
-   uses the constructors of the generated code, or forgets the delete, fails here *)
-Lemma every_lexer_is_per_instance_and_deleted :
-  forallb (fun s => match s with (_, _, ctor, deferred) => String.eqb ctor "NewThreadSafeSyslLexer" && deferred end) lexer_sites = true.
+(* every other place that builds a lexer (expression debugger, language server) also deletes its entry when it is done;
+   a new site that forgets the delete fails here.  Which constructor the OTHER sites use is not an obligation: the
+   ANTLR runtime the repository pins guards its shared DFA caches with mutexes (see notes/C07.md, mutant M3) *)
+Lemma every_lexer_state_is_deleted :
+  forallb (fun s => match s with (_, _, _, deferred) => deferred end) lexer_sites = true.
 Proof. reflexivity. Qed.
-Lemma every_parser_is_per_instance :
-  forallb (fun s => match s with (_, _, ctor) => String.eqb ctor "NewThreadSafeSyslParser" end) parser_sites = true.
+Lemma lexer_sites_are : map (fun s => match s with (f, fn, _, _) => (f, fn) end) lexer_sites =
+  [("pkg/eval/debugger.go", "parseExpression"); ("pkg/lsp/impl/diagnostics.go", "diagnoseRaw"); ("pkg/parse/parse.go", "parseString")].
 Proof. reflexivity. Qed.
 Lemma compile_site_listed : In ("pkg/parse/parse.go", "parseString", "NewThreadSafeSyslLexer", true) lexer_sites.
 Proof. cbn. tauto. Qed.
